@@ -427,6 +427,16 @@ theorem slice_any_sign_false :
   rw [hw] at hs
   cases hs
 
+/-- REPAIRED start test: the full-strength slice claim holds — every slice with a non-zero step, all signs,
+    every length, is accepted and selects exactly the language-reference indices, all inside the array -/
+theorem slice_any_sign_repaired {n : Nat} (hn : (n : Int) ≤ PY_SSIZE_T_MAX) {a b c : Option Int}
+    (hc0 : c ≠ some 0) (hc : ∀ v, c = some v → -PY_SSIZE_T_MAX ≤ v) :
+    ∃ s, extractSliceIndices n (.slice a b c) (-1) (-1) = .ok s ∧
+      PyList.sliceIndices n a b c = some ((List.range s.slicelength).map s.at) ∧
+      ∀ i, i < s.slicelength → s.at i < n := by
+  obtain ⟨s, hs⟩ := extract_slice_total_repaired hn hc0 hc
+  exact ⟨s, hs, extract_slice_spec hn hc hs, fun i hi => slice_at_lt' hn hs i hi⟩
+
 theorem slice_any_sign_witnesses :
     extractSliceIndices 0 (.slice none none (some (-1))) = .error .domainError ∧
     PyList.sliceIndices 0 none none (some (-1)) = some [] ∧
@@ -502,7 +512,15 @@ theorem ifelse_refines {h : Heap} {v choice other : View} (w : v.WF (shape h)) (
     ∃ h' f, ifelseVector h v choice other = .ok (h', f) ∧
       f.toList h' = PyList.ifelse (choice.toList h) (v.toList h) (other.toList h) ∧
       f.WF (shape h') ∧ f.buf = h.length ∧ (∃ vals, h' = h ++ [vals]) :=
-  ifelseVector_refines w wc wo hw hl1 hl2
+  ifelseVector_refines w wc wo (Or.inr hw) hl1 hl2
+
+/-- repaired `ifelse` (const read): no writability needed — read-only sources work like lists -/
+theorem ifelse_refines_repaired {h : Heap} {v choice other : View} (w : v.WF (shape h)) (wc : choice.WF (shape h))
+    (wo : other.WF (shape h)) (hl1 : choice.length = v.length) (hl2 : other.length = v.length) :
+    ∃ h' f, ifelseVector h v choice other true = .ok (h', f) ∧
+      f.toList h' = PyList.ifelse (choice.toList h) (v.toList h) (other.toList h) ∧
+      f.WF (shape h') ∧ f.buf = h.length ∧ (∃ vals, h' = h ++ [vals]) :=
+  ifelseVector_refines w wc wo (Or.inl rfl) hl1 hl2
 
 /-- the mismatched-length masks and right-hand sides raise -/
 theorem mask_length_mismatch (h : Heap) (f mask : View) (hun : f.indices = none) (hl : f.length ≠ mask.length) :
@@ -612,16 +630,21 @@ theorem error_leaves_state (cfg : Cfg) (s : State) (op : Op) (e : Err) (h : (ste
 /-- `ifelse` on a READ-ONLY array raises as soon as `choice` selects one of its elements: the loop body uses
     the non-const `(*this)[i]`.  (Python-list semantics: reading never fails.) -/
 theorem ifelse_readonly_quirk :
-    (run Cfg.repaired State.empty [.alloc [1, 2], .makeReadOnly 0, .alloc [0, 1], .ifelseScalar 0 1 9]).2.getLast?
+    (run Cfg.asWritten State.empty [.alloc [1, 2], .makeReadOnly 0, .alloc [0, 1], .ifelseScalar 0 1 9]).2.getLast?
       = some (.error .readOnly) ∧
-    (run Cfg.repaired State.empty [.alloc [1, 2], .makeReadOnly 0, .alloc [0, 0], .ifelseScalar 0 1 9]).2.getLast?
+    (run Cfg.asWritten State.empty [.alloc [1, 2], .makeReadOnly 0, .alloc [0, 0], .ifelseScalar 0 1 9]).2.getLast?
+      = some (.ok (.newView 2)) ∧
+    (run Cfg.repaired State.empty [.alloc [1, 2], .makeReadOnly 0, .alloc [0, 1], .ifelseScalar 0 1 9]).2.getLast?
       = some (.ok (.newView 2)) := by decide
 
 /-- `m[mask2] = x` on a masked reference `m` ignores `mask2` altogether (every referenced element is set) -/
 theorem setitem_scalar_mask_on_masked_ignores_mask :
+    (exec Cfg.asWritten State.empty
+      [.alloc [10, 11, 12], .alloc [1, 1, 0], .getmask 0 1, .alloc [1, 0], .setScalarMask 2 3 7]).heap[0]?
+      = some [7, 7, 12] ∧
     (exec Cfg.repaired State.empty
       [.alloc [10, 11, 12], .alloc [1, 1, 0], .getmask 0 1, .alloc [1, 0], .setScalarMask 2 3 7]).heap[0]?
-      = some [7, 7, 12] := by decide
+      = some [7, 11, 12] := by decide
 
 /-! ## Converting constructor -/
 
